@@ -231,7 +231,7 @@ pub fn judge(w: &World, r: &RunResult) -> Vec<Violation> {
 
 pub fn run(ctx: &Ctx) -> Report {
     let mut rep = Report::new(
-        "3 world modes on SimKsf (20 suites), Identity (20) and Argon2 (4) instantiations: (0) (registration, login) KSF pairs — absent/explicit default/equal/different instances incl. Argon2 with non-default cost and the real default — decided by Model A, with the SimKsf seam's call log checked for exactly one call per finish step, the right instance, an Nh-byte input equal at registration and login; (1) two registrations on the SAME tapes under two instances: client public key, masking key, envelope MAC and export key must all differ; (2) SimKsf failing at call 1 of registration finish / login finish (must surface as LibraryError(KsfError), no panic) and at call 2 (must never fire). distinct = hash of (suite, op/outcome sequence)",
+        "3 world modes on SimKsf (20 suites), Identity (20) and Argon2 (4) instantiations: (0) (registration, login) KSF pairs — absent/explicit default/equal/different instances incl. Argon2 with non-default cost and the real default — decided by Model A, with the SimKsf seam's call log checked for exactly one call per finish step, the right instance, an Nh-byte input equal at registration and login; (1) two registrations on the SAME tapes under two instances: client public key, masking key, envelope MAC and export key must all differ; (2) SimKsf failing at call 1 of registration finish / login finish (must surface as LibraryError(KsfError), no panic) and at call 2 (must never fire); (3) a Ksf type WITHOUT fields (unit struct SimKsfUnit) on the fixed suite ristretto255/ristretto255 vs SimKsf{tag} computing the same function on the same tapes: one logged call per finish step, injected failure at call 1 of either finish step returned as an error, upload / export key / finalization / session keys byte-identical. distinct = hash of (suite, op/outcome sequence)",
     );
     rep.exhaustive = Some(true);
     let mut suites: Vec<&'static dyn SuiteOps> = SIM_SUITES.to_vec();
